@@ -16,7 +16,22 @@ Definition m04dg (c : scase) : bool := negb (going_keys_nodup c) || m04d c.
 Definition m06dg (c : scase) : bool := negb (phase_objects_carried c) || m06d c.
 
 Definition judge03g (c : scase) : bool * bool := (agree c, m03g c && m03d c).
-Definition judge04g (c : scase) : bool * bool := (agree c, m04 c && m04dg c).
+(** C04, the invariant the teardown clauses rest on ("the finalizer stays until done" presupposes it is there whenever
+    the ObjectSet may control something): an active ObjectSet that does not carry the cached finalizer issues no member
+    or phase-object write unless the first request of the pass is the successful finalizer patch. *)
+Definition sev_writes (e : sev) : bool :=
+  match e with SMember _ => true | SPhase (PGet _ _) => false | SPhase _ => true | SMeta _ => false end.
+Definition m04f (c : scase) : bool :=
+  match target c with
+  | None => true
+  | Some m =>
+      negb (is_activeb m) || os_fin m ||
+      match sc_events c with
+      | SMeta (MFinalizer true true) :: _ => true
+      | evs => negb (existsb sev_writes evs)
+      end
+  end.
+Definition judge04g (c : scase) : bool * bool := (agree c, m04 c && m04dg c && m04f c).
 Definition judge05sg (c : scase) : bool * bool :=
   (agree c, m04dg c && match target c with Some m => negb (is_goingb m) || negb (os_orphan m) || is_nil (members c) | None => true end).
 Definition judge06g (c : scase) : bool * bool := (agree c, m06g c && m06dg c).
@@ -68,11 +83,39 @@ Proof.
   destruct (phase_objects_carried c) eqn:H; [|reflexivity]. cbn [negb orb]. now apply m06d_sound_partial.
 Qed.
 
+Lemma active_body_prefix force sw0 evs0 mem sw' evs r :
+  active_body force sw0 evs0 mem = (sw', evs, r) -> exists rest, evs = evs0 ++ rest.
+Proof.
+  unfold active_body.
+  repeat (match goal with
+   | |- context [match ?x with _ => _ end] => destruct x eqn:?
+   | |- context [if ?x then _ else _] => destruct x eqn:?
+   end).
+  all: intros H; inversion H; subst; rewrite <- ?app_assoc; eexists; reflexivity.
+Qed.
+
+Theorem m04f_sound (c : scase) : m04f (set_obs_s c (SetCorr.model_run c)) = true.
+Proof.
+  unfold m04f. destruct (SetCorr.model_run c) as [[sw e] r] eqn:E.
+  change (target (set_obs_s c (sw, e, r))) with (find_set (sc_sets c) (sc_kind c) (sc_ns c) (sc_name c)).
+  destruct (find_set (sc_sets c) (sc_kind c) (sc_ns c) (sc_name c)) as [m|] eqn:Ef; [|reflexivity].
+  destruct (is_activeb m) eqn:Ha; [|reflexivity]. cbn [negb orb].
+  destruct (os_fin m) eqn:Hf; [reflexivity|]. cbn [orb].
+  change (sc_events (set_obs_s c (sw, e, r))) with e.
+  unfold is_activeb in Ha. rewrite !andb_true_iff, !negb_true_iff in Ha. destruct Ha as [[Ha1 Ha2] Ha3].
+  unfold SetCorr.model_run, objectset_pass in E.
+  change (sw_sets (sc_world c)) with (sc_sets c) in E. rewrite Ef, Ha1, Ha2, Ha3 in E. cbn [orb] in E.
+  unfold active_pass in E. rewrite Hf in E.
+  destruct (patch_finalizer (sc_world c) m true) as [sw1 [m1|]].
+  - destruct (active_body_prefix _ _ _ _ _ _ _ E) as [rest ->]. reflexivity.
+  - injection E as _ <- _. reflexivity.
+Qed.
+
 (** The monitor halves of the judges accept every pass of the model. *)
 Theorem judge03g_sound c : snd (judge03g (set_obs_s c (SetCorr.model_run c))) = true.
 Proof. cbn [judge03g snd]. now rewrite m03g_sound, m03d_sound. Qed.
 Theorem judge04g_sound c : snd (judge04g (set_obs_s c (SetCorr.model_run c))) = true.
-Proof. cbn [judge04g snd]. now rewrite m04_sound, m04dg_sound. Qed.
+Proof. cbn [judge04g snd]. now rewrite m04_sound, m04dg_sound, m04f_sound. Qed.
 Theorem judge06g_sound c : snd (judge06g (set_obs_s c (SetCorr.model_run c))) = true.
 Proof. cbn [judge06g snd]. now rewrite m06g_sound, m06dg_sound. Qed.
 Theorem judge09g_sound c : snd (fst (fst (judge09g (set_obs_s c (SetCorr.model_run c))))) = true.
